@@ -77,3 +77,24 @@ Proof.
     apply Wf_last; [unfold no_lf; cbn; intuition discriminate|intros _; discriminate].
   - repeat constructor; unfold nocr; cbn; intros; discriminate.
 Qed.
+
+(* lf (and native on Unix): the bytes written, read again, are the same contents with every terminated line LF and the
+   last line still without a newline exactly when it was written without.  nocr_any: no terminated line has content ending
+   in a carriage return (such a line reads back as CRLF with the CR gone - the byte is written, it is only classified
+   differently by the next reader). *)
+Theorem written_lf : forall m ls, m = MLF \/ m = MNative ->
+  WfLines ls -> Forall nocr_any ls -> split_lines (lines_bytes m ls) = map (with_nl LF) ls.
+Proof. exact Proofs_LinesBack.written_lf. Qed.
+Print Assumptions written_lf.
+
+(* crlf: the same with every terminated line CRLF; no condition on the contents *)
+Theorem written_crlf : forall ls,
+  WfLines ls -> split_lines (lines_bytes MCRLF ls) = map (with_nl CRLF) ls.
+Proof. exact Proofs_LinesBack.written_crlf. Qed.
+Print Assumptions written_crlf.
+
+Example written_modes_nonvacuous :
+  let ls := [mkLine (bs "a") CRLF; mkLine (bs "b") LF; mkLine (bs "c") NoNL] in
+  split_lines (lines_bytes MLF ls) = [mkLine (bs "a") LF; mkLine (bs "b") LF; mkLine (bs "c") NoNL] /\
+  split_lines (lines_bytes MCRLF ls) = [mkLine (bs "a") CRLF; mkLine (bs "b") CRLF; mkLine (bs "c") NoNL].
+Proof. split; reflexivity. Qed.
